@@ -6,7 +6,7 @@ import ast
 
 from ..alpha import Loc
 from ..const import UNKNOWN, Folder
-from ..flow import Slicer
+from ..flow import Slicer, flat_guards
 from ..model import FuncInfo, Model, dotted, norm, walk_no_nested, walk_with_lambdas
 from ..report import Run
 from .common import short
@@ -436,6 +436,16 @@ def check(model: Model, run: Run) -> None:
     )
     _r11_memo_args(model, run)
 
+    run.rule(
+        'C15.R13',
+        'decoding depends on the bytes and the session only: the per-attribute cache of Attribute.unpack is keyed by the value '
+        'bytes alone, so it may serve a class only if the decoder of that class does not read its negotiated argument (AIGP is '
+        'dropped or kept by negotiated.aigp, AS_PATH and AGGREGATOR are 2 or 4 octets wide by negotiated.asn4) - or the cache is '
+        'never consulted, which is the case as long as the flag is read from the class unpack() is called on (Attribute)',
+        floor=1,
+    )
+    attribute_cache_rule(model, run, folder)
+
     run.rule('C15.R4', 'no __eq__ compares a field of self with the same field of self (a typo that makes distinct objects equal)', floor=41)
     n_e = 0
     for fi in model.funcs.values():
@@ -672,3 +682,57 @@ def _r11_memo_args(model: Model, run: Run) -> None:
             )
     if n < 1:
         run.cannot('only %d memoised renderings found in the message classes' % n)
+
+
+def attribute_cache_rule(model: Model, run: Run, folder: Folder) -> None:
+    """shared by C15.R13 and C19.R8"""
+    ATTR = 'exabgp.bgp.message.update.attribute.attribute.Attribute'
+    un = model.func(ATTR + '.unpack')
+    run.analysed(un)
+    L = Loc(model, un)
+    # the flag that lets the cache answer: the local tested in front of the `retrieve`
+    rets = [c for c in walk_no_nested(un.node) if isinstance(c, ast.Call) and isinstance(c.func, ast.Attribute) and c.func.attr == 'retrieve']
+    if not rets:
+        run.cannot('Attribute.unpack: no cache retrieve() call found')
+        return
+    base = model.cls(ATTR)
+    dead = None
+    terms: list[ast.AST] = []
+    for t, pol in flat_guards(un.node, rets[0]):
+        e = L.expanded(t, depth=4)
+        stack = [e]
+        while stack:
+            x = stack.pop()
+            if isinstance(x, ast.BoolOp) and isinstance(x.op, ast.And):
+                stack += list(x.values)
+            else:
+                terms.append(x)
+    for x in terms:
+        # Attribute.unpack is called on the base class (AttributeCollection.parse: Attribute.unpack(aid, flag, ...)): cls is Attribute
+        # (only a constant of the class counts: `caching` is the run-time switch the daemon sets from exabgp.cache.attributes)
+        if isinstance(x, ast.Attribute) and x.attr.isupper() and folder.fold(x, un.module, base) is False:
+            dead = x
+    callers = [(f, c) for f in model.funcs.values() for c in model.calls_to(f.module, f.node, 'Attribute.unpack') if isinstance(c.func, ast.Attribute) and f is not un]
+    on_base = bool(callers) and all(dotted(c.func.value) in ('Attribute', 'cls') and (dotted(c.func.value) == 'Attribute' or (f.cls is not None and f.cls.qualname == ATTR)) for f, c in callers)
+    if dead is not None and on_base:
+        run.ok('Attribute.unpack: cache never consulted', '`%s` is False for the class every call site calls it on (Attribute, %d call sites)' % (norm(dead), len(callers)))
+        return
+    # the cache can answer: for which classes, and do their decoders read the session ?
+    keyed = [norm(a) for c in rets for a in c.args]
+    if any('negotiated' in k for k in keyed):
+        run.ok('Attribute.unpack: cache key', 'the key %s includes the session' % keyed)
+        return
+    n = 0
+    for qn, ci in sorted(model.classes.items()):
+        if not model.is_subclass(qn, ATTR) or folder.class_attr(qn, 'CACHING') is not True:
+            continue
+        eff = model.effective(qn, 'unpack_attribute')
+        if eff is None:
+            continue
+        params = [a.arg for a in eff.node.args.args]
+        neg = params[2] if len(params) > 2 else 'negotiated'
+        reads = sorted({norm(x) for x in walk_no_nested(eff.node) if isinstance(x, ast.Attribute) and isinstance(x.value, ast.Name) and x.value.id == neg})
+        n += 1
+        run.check(not reads, qn, 'served from the cache keyed by %s: its decoder reads %s' % (keyed, reads or 'nothing of the session'), eff.loc(), 'the first session that decodes these bytes decides what every other session gets for them: an AIGP metric decoded on a session without the AIGP capability is kept as `discard` for the session that has it (and the other way round), so decode(encode(x)) is not x')
+    if n == 0:
+        run.cannot('Attribute.unpack: the cache can answer but no class with CACHING = True was found')
